@@ -31,8 +31,8 @@ func I2V(objs []interface{}, types []reflect.Type, isVariadic bool) ([]reflect.V
 			typ = types[i]
 		} else {
 			typ = types[len(types)-1]
-			// 兼容可变参数
-			if isVariadic {
+			// 兼容可变参数 (only the trailing variadic positions have the slice's element type)
+			if isVariadic && i >= len(types)-1 {
 				typ = typ.Elem()
 			}
 		}
@@ -136,8 +136,8 @@ func ToExpr(args []interface{}, types []reflect.Type, isVariadic bool) ([]Expr, 
 		if expr, ok := a.(Expr); ok {
 			expressions[i] = expr
 		} else {
-			// 兼容可变参数
-			if isVariadic {
+			// 兼容可变参数 (only the trailing variadic positions have the slice's element type)
+			if isVariadic && i >= len(types)-1 {
 				typ = typ.Elem()
 			}
 			// 默认使用 equals 表达式
